@@ -15,11 +15,13 @@ import (
 // C15: token bucket filter. See DESIGN.md §3 C15 for the soundness argument of the window rule.
 
 type tstep struct {
-	GapUs    int  `json:"gap_us"`
-	Size     int  `json:"size"`
-	SetRate  int  `json:"set_rate,omitempty"`
-	SetBurst int  `json:"set_burst,omitempty"`
-	NoSend   bool `json:"no_send,omitempty"` // only wait and apply SetRate: no datagram is handed in
+	GapUs     int  `json:"gap_us"`
+	Size      int  `json:"size"`
+	SetRate   int  `json:"set_rate,omitempty"`
+	SetBurst  int  `json:"set_burst,omitempty"`
+	UndoBurst bool `json:"undo_burst,omitempty"` // apply the option that the previous Set(TBFMaxBurst) returned (restores the value before it)
+	UndoRate  bool `json:"undo_rate,omitempty"`  // same for TBFRate
+	NoSend    bool `json:"no_send,omitempty"`    // only wait and apply SetRate: no datagram is handed in
 }
 
 type tcase struct {
@@ -106,8 +108,28 @@ func genTBFCase(rng *rand.Rand, multi bool) tcase {
 				c.Steps = append(c.Steps, tstep{GapUs: 0, Size: min(1400, c.Burst)})
 				tot += min(1400, c.Burst)
 			}
+			viaUndo := rng.Intn(2) == 0 // restore with the option that Set returned instead of an explicit value
 			for k := 0; k < 3+rng.Intn(3); k++ {
-				c.Steps = append(c.Steps, tstep{GapUs: 300, Size: 10, SetBurst: max(c.Burst/4, 100)}, tstep{GapUs: 300, Size: 10, SetBurst: c.Burst})
+				c.Steps = append(c.Steps, tstep{GapUs: 300, Size: 10, SetBurst: max(c.Burst/4, 100)})
+				if viaUndo {
+					c.Steps = append(c.Steps, tstep{GapUs: 300, Size: 10, UndoBurst: true})
+				} else {
+					c.Steps = append(c.Steps, tstep{GapUs: 300, Size: 10, SetBurst: c.Burst})
+				}
+			}
+		}
+		if refillUs := c.Burst * 8 * 1000 / (c.Rate / 1000); !multi && refillUs <= 100000 && rng.Intn(3) == 0 {
+			// burst raised tenfold for a while and restored with the option Set returned (or a rate change undone the same
+			// way), after an idle gap long enough to fill the larger bucket; then a burst of arrivals
+			if rng.Intn(2) == 0 {
+				c.Steps = append(c.Steps, tstep{GapUs: 0, Size: 10, SetBurst: c.Burst * 10}, tstep{GapUs: min(refillUs*12, 400000), Size: 10}, tstep{GapUs: 0, Size: 10, UndoBurst: true})
+			} else {
+				c.Steps = append(c.Steps, tstep{GapUs: 0, Size: 10, SetRate: c.Rate * 4}, tstep{GapUs: 2000, Size: 10}, tstep{GapUs: 0, Size: 10, UndoRate: true})
+			}
+			tot := 0
+			for tot < 3*c.Burst {
+				c.Steps = append(c.Steps, tstep{GapUs: 0, Size: min(1400, c.Burst)})
+				tot += min(1400, c.Burst)
 			}
 		}
 		if rng.Intn(3) == 0 {
@@ -251,6 +273,8 @@ func runTBFCase(c tcase, r *res.Result) (string, string) {
 		fwdIdx [2]int
 	}
 	rate, burst := c.Rate, c.Burst
+	prevRate, prevBurst := rate, burst
+	var undoRate, undoBurst vnet.TBFOption
 	rateHigh := rate
 	var its []iter
 	if !waitParkedTBF(5 * time.Second) {
@@ -259,8 +283,8 @@ func runTBFCase(c tcase, r *res.Result) (string, string) {
 	step := func(st tstep, flush bool) bool {
 		waitGap(st.GapUs)
 		if st.SetRate > 0 {
-			f.Set(vnet.TBFRate(st.SetRate))
-			rate = st.SetRate
+			undoRate = f.Set(vnet.TBFRate(st.SetRate))
+			prevRate, rate = rate, st.SetRate
 			if rate > rateHigh {
 				rateHigh = rate
 			}
@@ -271,9 +295,22 @@ func runTBFCase(c tcase, r *res.Result) (string, string) {
 			return true
 		}
 		if st.SetBurst > 0 {
-			f.Set(vnet.TBFMaxBurst(st.SetBurst))
-			burst = st.SetBurst
+			undoBurst = f.Set(vnet.TBFMaxBurst(st.SetBurst))
+			prevBurst, burst = burst, st.SetBurst
 			r.Count("runtime_burst_changes", 1)
+		}
+		if st.UndoBurst && undoBurst != nil {
+			undoBurst = f.Set(undoBurst) // the option returned by Set restores the previous burst (and returns its own undo)
+			prevBurst, burst = burst, prevBurst
+			r.Count("runtime_burst_restored_with_returned_option", 1)
+		}
+		if st.UndoRate && undoRate != nil {
+			undoRate = f.Set(undoRate)
+			prevRate, rate = rate, prevRate
+			if rate > rateHigh {
+				rateHigh = rate
+			}
+			r.Count("runtime_rate_restored_with_returned_option", 1)
 		}
 		pl := vn.Payload(uint64(len(its)+1), st.Size)
 		ch := vnet.VerifNewChunkUDP(vn.UDP("10.0.0.1", 1000), vn.UDP("10.0.0.2", 2000), pl)
